@@ -354,8 +354,16 @@ def c20_r4(ctx):
            "write_dir: directory pickle, options pickle, back-patch (dirpos, length) at basepos, close", detail=str(seq))
     ini = cs.methods["__init__"]
     ctx.saw(ini)
+    # the file is self._file, or the constructor parameter self._file was bound from
+    recv_ok = set(["self._file"])
+    for st in ast.walk(ini.node):
+        if isinstance(st, ast.Assign) and any(norm.canon(t) == "self._file" for t in st.targets) and isinstance(st.value, ast.Name) \
+                and st.value.id in ini.params:
+            recv_ok.add(st.value.id)
     rseq = [norm.call_name(c) for c in norm.calls_in(ini.node) if norm.call_name(c) in ("read_long", "read_int", "read_pickle", "seek")
-            and "self._file" in norm.canon(norm.receiver(c) or ast.Name(id=""))]
+            and norm.canon(norm.receiver(c) or ast.Name(id="")) in recv_ok]
+    if "read_long" in rseq:
+        rseq = rseq[rseq.index("read_long"):]
     ctx.ob(ini, rseq[:5] == ["read_long", "read_int", "seek", "read_pickle", "read_pickle"],
            "reader: long dirpos, int length, seek(dirpos), directory pickle, options pickle", detail=str(rseq))
     rg = cs.methods["range"]
